@@ -1,9 +1,83 @@
 import Pandora.Drv.Util
+import Pandora.Model.C04
+import Pandora.Spec.C04
 
 namespace Pandora.Drv.C04
-open Pandora.Drv
+open Pandora.Drv Pandora.Model.C04 Pandora.Spec.C04
 
-/-- stub: replaced when the property's model driver is written -/
-def handle : Handler := fun _ _ => ("-", "skip:not-built")
+def parseEntry (s : String) : Option Entry :=
+  match s.splitOn ":" with
+  | [t, p, r, d] => do
+      let c ← d.toList.head?
+      pure { tok := ← t.toInt?, pick := ← p.toInt?, ret := ← r.toInt?, dec := c }
+  | _ => none
+
+def parseSeqs (s : String) : Option (List (List Entry)) :=
+  (splitList s "|").mapM fun q => (splitList q ",").mapM parseEntry
+
+def parseObs (kv : List (String × String)) : Option Obs := do
+  pure { endT := ← getI? kv "end", err := getS kv "err", total := ← getN? kv "total", bad := ← getN? kv "bad",
+         net := getS kv "net" "-", tag := getS kv "tag" "-", seqs := ← parseSeqs (getS kv "seq") }
+
+/-- duration of `once:N` / `const:OPS:MS` joined by `+`, ns -/
+def profDur (p : String) : Option Int :=
+  (p.splitOn "+").foldlM (init := (0 : Int)) fun acc seg =>
+    match seg.splitOn ":" with
+    | ["once", _] => some acc
+    | ["const", _, ms] => (ms.toInt?).map (fun m => acc + m * 1000000)
+    | _ => none
+
+def parseInput (kv : List (String × String)) : Option Input := do
+  let mode := getS kv "mode"
+  if mode == "waiter" then
+    pure { mode, discard := true, profDur := 0, maxResp := 0, cancelled := (lookup kv "cancel").isSome }
+  else if mode == "engine" then
+    let resp ← parseInts (getS kv "resp" "0")
+    pure { mode, discard := getS kv "discard" == "1", profDur := ← profDur (getS kv "prof"),
+           maxResp := resp.foldl (fun a b => max a (b * 1000000)) 0, cancelled := (lookup kv "cancel").isSome }
+  else none
+
+/-- one iteration of the instance loop as observed, with the clock reading placed at `now` -/
+def iterOf (e : Entry) (now : Int) : Iter :=
+  { finished := false, ammoOk := true, ctxDoneSlow := false, dur := 0,
+    env := { ctxDone := e.dec == '-', tok := some e.tok, pick := e.pick, now := now, arm := now, timerWins := true, ret := e.ret } }
+
+def decOf : List Ev → Char
+  | [.shoot _] => 'F'
+  | [.discard _ _] => 'D'
+  | _ => '-'
+
+/-- Run the (repaired) model over one instance's observed history twice: with every clock reading at the earliest
+possible instant (`pick`) and at the latest (`ret`).  Returns the predicted entries and the number of decisions on which the
+two runs differ (those are copied from the observation). -/
+def predictSeq (discard : Bool) : Waiter → Waiter → List Entry → List Entry × Nat
+  | _, _, [] => ([], 0)
+  | wlo, whi, e :: rest =>
+    let ilo := iterOf e e.pick
+    let ihi := iterOf e (if e.dec == '-' then e.pick else e.ret)
+    let dlo := decOf (runLoop .fresh discard wlo [ilo]).1
+    let dhi := decOf (runLoop .fresh discard whi [ihi]).1
+    let wlo' := (waitV .fresh wlo ilo.env).w
+    let whi' := (waitV .fresh whi ihi.env).w
+    let (ps, amb) := predictSeq discard wlo' whi' rest
+    if dlo == dhi then ({ e with dec := dlo } :: ps, amb) else (e :: ps, amb + 1)
+
+def renderSeqs (ss : List (List Entry)) : String :=
+  "|".intercalate (ss.map fun s => ",".intercalate (s.map fun e => s!"{e.tok}:{e.pick}:{e.ret}:{e.dec}"))
+
+def handle : Handler := fun input impl =>
+  match parseInput (parseKV input), parseObs (parseKV impl) with
+  | some i, some o =>
+    let pr := o.seqs.map (predictSeq i.discard Waiter.init Waiter.init)
+    let seqs := pr.map (·.1)
+    let amb := (pr.map (·.2)).foldl (· + ·) 0
+    let anyD := seqs.any (·.any (·.dec == 'D'))
+    let (net, tag) := if i.mode == "engine" && anyD then (toString discardNetCode, discardTag) else ("-", "-")
+    let mobs := s!"end={o.endT} err={o.err} total={o.total} bad=0 net={net} tag={tag} seq={renderSeqs seqs}"
+    let v := judge i o
+    let v := if v == "ok" && amb > 0 then s!"skip:inconclusive-{amb}-decisions-inside-the-reading-interval" else v
+    (mobs, v)
+  | none, _ => ("-", "fail:driver:unparsable input")
+  | _, none => ("-", s!"fail:crash:unparsable observation {impl.take 120}")
 
 end Pandora.Drv.C04
